@@ -21,6 +21,7 @@
 #include <smooth/so3.hpp>
 
 #include <algorithm>
+#include <utility>
 #include <memory>
 #include <sstream>
 
@@ -466,6 +467,28 @@ bool run_script(const std::vector<std::string> & toks, std::vector<typename smoo
         }) && ok;
       }) && ok;
       if (ok && have_shadow) cmp_value(shadow, l);
+    } else if (op == "R" || op == "RL") {
+      // read the sub-part src.path through the CONST overloads (Map<const G>, const Map<G> = std::as_const,
+      // const value) and store its coefficients (R) / its log() (RL) in the first words of dst
+      const Loc d  = T.loc(), sl = T.loc();
+      const auto p = parse_path(T.next());
+      std::vector<S> got;
+      ok = st->with_any(sl, [&](const auto & sv) {
+        ok = walk(sv, p, 0, [&](auto & tgt) {
+          using TT = std::remove_cvref_t<decltype(tgt)>;
+          if constexpr (is_eigen_v<TT>) {
+            for (int i = 0; i < int(tgt.size()); ++i) got.push_back(tgt(i));
+          } else if (op == "R") {
+            for (int i = 0; i < int(TT::RepSize); ++i) got.push_back(tgt.coeffs()(i));
+          } else {
+            const auto a = tgt.log();
+            for (int i = 0; i < int(a.size()); ++i) got.push_back(a(i));
+          }
+        }) && ok;
+      }) && ok;
+      ok = ok && int(got.size()) <= R && st->with_mut(d, [&](auto & dv) {
+        for (int i = 0; i < int(got.size()); ++i) dv.coeffs()(i) = got[i];
+      });
     } else if (op == "X") {
       const Loc d = T.loc(), s = T.loc();
       G shadow;
@@ -589,6 +612,57 @@ void dump_group()
         (void)acc_sum;
       }
       report_diff<S>("cview", g, acc + " @" + std::to_string(off0), before, after, total, vo);
+      // READ window of the const overloads: which sentinel words does the returned view show?
+      fresh();
+      auto read_window = [&](const auto & view, const S * base, const char * kind) {
+        std::vector<int> idx;
+        walk(view, path, 0, [&](auto & tgt) {
+          using TT = std::remove_cvref_t<decltype(tgt)>;
+          auto word = [&](S x) {
+            int found = -999;
+            for (int i = -GUARD - 4; i < R + GUARD + 4; ++i)
+              if (base + i >= after && base + i < after + total && same_bits(base[i], x)) { found = i; break; }
+            idx.push_back(found);
+          };
+          if constexpr (is_eigen_v<TT>) { for (int i = 0; i < int(tgt.size()); ++i) word(tgt(i)); }
+          else { for (int i = 0; i < int(TT::RepSize); ++i) word(tgt.coeffs()(i)); }
+        });
+        bool contiguous = !idx.empty() && idx[0] != -999;
+        for (size_t i = 1; i < idx.size(); ++i) contiguous = contiguous && idx[i] == idx[i - 1] + 1;
+        std::printf("rview %s %s %s %s @%d", g.c_str(), Prec<S>::name, acc.c_str(), kind, off0);
+        if (contiguous) std::printf(" %d %d\n", idx.front(), int(idx.size()));
+        else { std::printf(" scattered"); for (int i : idx) std::printf(" %d", i); std::printf("\n"); }
+      };
+      {
+        const smooth::Map<const G> c(after + vo);
+        read_window(c, after + vo, "cmap");
+        smooth::Map<G> mm(after + vo);
+        read_window(std::as_const(mm), after + vo, "asconst");
+      }
+      {
+        // a const VALUE object holding sentinels: read window relative to its own data()
+        alignas(64) S vbuf[MAXBUF];
+        for (int i = 0; i < total; ++i) vbuf[i] = after[i];
+        G val;
+        for (int i = 0; i < R; ++i) val.coeffs()(i) = after[vo + i];
+        const G & cval = val;
+        std::vector<int> idx;
+        walk(cval, path, 0, [&](auto & tgt) {
+          using TT = std::remove_cvref_t<decltype(tgt)>;
+          auto word = [&](S x) {
+            int found = -999;
+            for (int i = 0; i < R; ++i) if (same_bits(val.coeffs()(i), x)) { found = i; break; }
+            idx.push_back(found);
+          };
+          if constexpr (is_eigen_v<TT>) { for (int i = 0; i < int(tgt.size()); ++i) word(tgt(i)); }
+          else { for (int i = 0; i < int(TT::RepSize); ++i) word(tgt.coeffs()(i)); }
+        });
+        bool contiguous = !idx.empty() && idx[0] != -999;
+        for (size_t i = 1; i < idx.size(); ++i) contiguous = contiguous && idx[i] == idx[i - 1] + 1;
+        std::printf("rview %s %s %s cvalue @%d", g.c_str(), Prec<S>::name, acc.c_str(), off0);
+        if (contiguous) std::printf(" %d %d\n", idx.front(), int(idx.size()));
+        else { std::printf(" scattered"); for (int i : idx) std::printf(" %d", i); std::printf("\n"); }
+      }
     }
     // --- full-view mutators
     {
@@ -838,6 +912,8 @@ void catalogue(V && visit)
 #elif FAMILY == 1
   visit.template group<SE3<S>>();
   visit.template group<Bundle<SO3<S>>>();
+  visit.template group<Bundle<V3, SO3<S>>>();
+  visit.template group<Bundle<C1<S>, SO2<S>>>();
 #elif FAMILY == 2
   visit.template group<Galilei<S>>();
   visit.template group<SE_K_3<S, 1>>();
@@ -850,9 +926,11 @@ void catalogue(V && visit)
   visit.template group<Bundle<SE2<S>, V2>>();
   visit.template group<Bundle<SO2<S>, SO2<S>, SO2<S>>>();
   visit.template group<Bundle<V1, V3>>();
+  visit.template group<Bundle<Bundle<V2, V2>, SO2<S>>>();
 #elif FAMILY == 5
   visit.template group<Bundle<C1<S>, V1, SO3<S>, SO2<S>>>();
   visit.template group<Bundle<SE3<S>, V3, SO3<S>>>();
+  visit.template group<Bundle<SE2<S>, V2, SO2<S>, SE3<S>>>();
 #elif FAMILY == 6
   visit.template group<Bundle<Bundle<SO3<S>, V3>, SE2<S>>>();
   visit.template group<Bundle<V2, Bundle<SO2<S>, Bundle<SE3<S>, V1>>>>();
